@@ -60,7 +60,7 @@ pub fn drive(args: &[String]) {
         add(&s, perms, &mut groups);
     }
     // (b) generator outputs with random renumberings, and their duals
-    for s in generated_2d(maxgen) {
+    for s in generated_2d_reach(maxgen, 7, if thorough { 300 } else { 200 }, &mut rng) {
         if s.size() < 4 { continue; }
         let n = s.size();
         add(&s, (0..2).map(|_| rand_perm(n, &mut rng)).collect(), &mut groups);
